@@ -810,7 +810,7 @@ func checkModuliLogSize(logQ, logP []int) error {
 // GenModuli generates a valid moduli chain from the provided moduli sizes.
 func GenModuli(LogNthRoot int, logQ, logP []int) (q, p []uint64, err error) {
 
-	if err = checkSizeParams(logN); err != nil {
+	if err = checkSizeParams(LogNthRoot - 1); err != nil {
 		return
 	}
 
